@@ -465,6 +465,38 @@ theorem mem_items {L : List (K × V)} {p : K × V} (h : p ∈ Spec.items L) : Sp
 
 theorem todict_spec {s : OMD K V} (h : Inv s) : s.todict = .ok (Spec.items s.cells) := items_spec h
 
+/-- looking a key up in the visible items gives its most recent value -/
+theorem dget_items (L : List (K × V)) (k : K) : dget k (Spec.items L) = Spec.last k L := by
+  have key : ∀ ks : List K, (∀ x ∈ ks, (Spec.last x L).isSome) →
+      dget k (ks.filterMap fun x => (Spec.last x L).map fun v => (x, v)) =
+        if k ∈ ks then Spec.last k L else none := by
+    intro ks
+    induction ks with
+    | nil => intro _; rfl
+    | cons x r ih =>
+      intro hx
+      have h1 := hx x (by simp)
+      have ih' := ih (fun y hy => hx y (by simp [hy]))
+      cases hl : Spec.last x L with
+      | none => simp [hl] at h1
+      | some v =>
+        rw [List.filterMap_cons]
+        simp only [hl, Option.map_some, dget]
+        by_cases e : x = k
+        · subst e; simp [hl]
+        · have e' : ¬ k = x := fun e' => e e'.symm
+          simp only [e, ↓reduceIte, ih', List.mem_cons, e', false_or]
+  unfold Spec.items
+  rw [key _ (fun x hx => (last_isSome_iff x L).mpr ((mem_keys L x).mp hx))]
+  split
+  · rfl
+  · rename_i hk
+    have : valsOf k L = [] := by
+      by_cases e : valsOf k L = []
+      · exact e
+      · exact absurd ((mem_keys L k).mpr e) hk
+    simp [Spec.last, this]
+
 theorem values_spec {s : OMD K V} (h : Inv s) : s.values = .ok (Spec.values s.cells) := by
   simp [OMD.values, items_spec h, Spec.values]
 
@@ -801,6 +833,13 @@ theorem hstep_spec (st : HState K V) (hi : HInv st) (op : HOp K V) :
   | poplast k d => exact withS_spec st hi _ _ (poplast_spec hi.s k d)
   | popitem => exact withS_spec st hi _ _ (popitem_spec hi.s)
   | clear => exact ⟨⟨inv_empty, hi.t⟩, rfl, rfl⟩
+  | addlistAbort k vs => exact ⟨hi, rfl, rfl⟩
+  | updateAbort l =>
+    have := updPairs_spec hi.s [] l
+    exact ⟨⟨this.1, hi.t⟩, by simp only [hstep, Spec.hstep, absH, this.2, replaceBy_eq], rfl⟩
+  | updateExtendAbort l =>
+    have := addAll_spec hi.s l
+    exact ⟨⟨this.1, hi.t⟩, by simp only [hstep, Spec.hstep, absH, this.2], rfl⟩
   | copyToT => exact ⟨⟨hi.s, (copy_spec st.s).1⟩, by simp [hstep, Spec.hstep, absH, (copy_spec st.s).2], rfl⟩
   | copyToS => exact ⟨⟨(copy_spec st.s).1, hi.t⟩, by simp [hstep, Spec.hstep, absH, (copy_spec st.s).2], rfl⟩
   | swap => exact ⟨⟨hi.t, hi.s⟩, rfl, rfl⟩
@@ -1099,6 +1138,99 @@ theorem flipIf_trans (rev : Bool) (le : α → α → Bool)
   intro a b c; cases rev
   · exact htr a b c
   · exact fun h1 h2 => htr c b a h2 h1
+
+/-! stability: elements with equal sort keys keep their relative order -/
+
+/-- `a` and `b` have the same sort key -/
+def eqv (le : α → α → Bool) (a b : α) : Bool := le a b && le b a
+
+theorem eqv_flipIf (rev : Bool) (le : α → α → Bool) (a b : α) : eqv (flipIf rev le) a b = eqv le a b := by
+  cases rev
+  · rfl
+  · simp [eqv, flipIf, Bool.and_comm]
+
+theorem insBy_filter_eqv (le : α → α → Bool)
+    (htr : ∀ a b c, le a b = true → le b c = true → le a c = true) (a x : α) (l : List α) :
+    (insBy le x l).filter (eqv le a) = if eqv le a x = true then x :: l.filter (eqv le a) else l.filter (eqv le a) := by
+  induction l with
+  | nil => simp [insBy, List.filter_cons]
+  | cons y ys ih =>
+    simp only [insBy]
+    split
+    · simp only [List.filter_cons]
+    · rename_i hxy
+      rw [List.filter_cons, ih]
+      by_cases hax : eqv le a x = true
+      · have hay : ¬ eqv le a y = true := by
+          intro hay
+          simp only [eqv, Bool.and_eq_true] at hax hay
+          exact hxy (htr _ _ _ hax.2 hay.1)
+        simp [hax, hay, List.filter_cons]
+      · simp [hax, List.filter_cons]
+
+theorem sortBy_filter_eqv (le : α → α → Bool)
+    (htr : ∀ a b c, le a b = true → le b c = true → le a c = true) (a : α) (l : List α) :
+    (sortBy le l).filter (eqv le a) = l.filter (eqv le a) := by
+  induction l with
+  | nil => rfl
+  | cons x xs ih =>
+    simp only [sortBy, List.foldr_cons] at ih ⊢
+    rw [insBy_filter_eqv le htr, ih, List.filter_cons]
+
+/-- a sorted list is determined by its classes of equal sort keys (each in its own order) -/
+theorem sorted_ext (le : α → α → Bool)
+    (htr : ∀ a b c, le a b = true → le b c = true → le a c = true)
+    (hrefl : ∀ a, le a a = true) :
+    ∀ (A B : List α), A.Pairwise (fun a b => le a b = true) → B.Pairwise (fun a b => le a b = true) →
+      (∀ a, A.filter (eqv le a) = B.filter (eqv le a)) → A = B := by
+  intro A
+  induction A with
+  | nil =>
+    intro B _ _ h
+    cases B with
+    | nil => rfl
+    | cons y ys => have := h y; simp [List.filter_cons, eqv, hrefl] at this
+  | cons x xs ih =>
+    intro B hA hB h
+    cases B with
+    | nil => have := h x; simp [List.filter_cons, eqv, hrefl] at this
+    | cons y ys =>
+      rw [List.pairwise_cons] at hA hB
+      have hxx : eqv le x x = true := by simp [eqv, hrefl]
+      have hyy : eqv le y y = true := by simp [eqv, hrefl]
+      -- x occurs in B and y occurs in A
+      have hxB : x ∈ y :: ys := by
+        have h1 := h x
+        rw [List.filter_cons, if_pos hxx] at h1
+        have : x ∈ (y :: ys).filter (eqv le x) := by rw [← h1]; simp
+        exact (List.mem_filter.mp this).1
+      have hyA : y ∈ x :: xs := by
+        have h1 := h y
+        rw [List.filter_cons (xs := ys), if_pos hyy] at h1
+        have : y ∈ (x :: xs).filter (eqv le y) := by rw [h1]; simp
+        exact (List.mem_filter.mp this).1
+      have hxy : le x y = true := by
+        rcases List.mem_cons.mp hyA with e | hm
+        · rw [e]; exact hrefl _
+        · exact hA.1 y hm
+      have hyx : le y x = true := by
+        rcases List.mem_cons.mp hxB with e | hm
+        · rw [e]; exact hrefl _
+        · exact hB.1 x hm
+      have hexy : eqv le x y = true := by simp [eqv, hxy, hyx]
+      have hhead : x = y := by
+        have h1 := h x
+        rw [List.filter_cons, if_pos hxx, List.filter_cons, if_pos hexy] at h1
+        exact (List.cons.inj h1).1
+      subst hhead
+      congr 1
+      apply ih ys hA.2 hB.2
+      intro a
+      have h1 := h a
+      rw [List.filter_cons, List.filter_cons] at h1
+      split at h1
+      · exact (List.cons.inj h1).2
+      · exact h1
 
 end sorting
 
